@@ -60,12 +60,16 @@ class Prop:
                             lon = rng.choice([-1, 1]) * (180 - rng.choice([0.0, 0.01, 0.1, rng.uniform(0, 0.6)]))
                         elif zone == 'polar':
                             lon = rng.uniform(-180, 180)
+                        elif rng.random() < 0.15:
+                            lon = 0.0                  # exactly on the Greenwich meridian
                         ov[off] = gen.bits_of_int(int(lon * scale), w)
                     if name == 'lat':
                         scale = 600000 if w == 27 else 600
                         lat = rng.uniform(-30, 30)
                         if zone == 'polar':            # close to (and on) the poles
                             lat = rng.choice([-1, 1]) * (90 - rng.choice([0.0, 0.01, 0.1, rng.uniform(0, 0.6)]))
+                        elif rng.random() < 0.15:
+                            lat = 0.0                  # exactly on the equator
                         ov[off] = gen.bits_of_int(int(lat * scale), w)
                 bits = gen.payload_bits(rng, c, overrides=ov)
             else:
@@ -97,6 +101,11 @@ class Prop:
             a, b = sorted([round(rng.uniform(-40, 40), 3), round(rng.uniform(-40, 40), 3)])
             c, d = sorted([round(rng.uniform(-40, 40), 3), round(rng.uniform(-40, 40), 3)])
             out.append('G:%d:%d:%d:%d' % (micro(a), micro(c), micro(b), micro(d)))
+        # boxes strictly off the equator / the Greenwich meridian (a coordinate of exactly 0.0 lies outside)
+        out.append('G:%d:%d:%d:%d' % (micro(1.0), micro(-40.0), micro(40.0), micro(40.0)))
+        out.append('G:%d:%d:%d:%d' % (micro(-40.0), micro(0.5), micro(40.0), micro(40.0)))
+        out.append('G:%d:%d:%d:%d' % (micro(-40.0), micro(-40.0), micro(-0.001), micro(-0.001)))
+        out.append('D:%d:%d:%d' % (micro(20.0), micro(20.0), 512 * 100 * UNIT))
         if pos:
             la, lo = rng.choice(pos)
             out.append('D:%d:%d:0' % (micro(la), micro(lo)))              # strictness: distance 0 is not < 0
